@@ -130,9 +130,23 @@ class Case:
     def rm(self):
         return bool(self.rmk) and self.rmk[-1] == "r"
 
+    def typed(self):
+        """what the run finds on its standard input"""
+        if self.stdin is not None:
+            return self.stdin
+        return ((self.answer or "n") + "\n").encode() * 16 if not self.quiet else b""
+
+    def answer_byte(self):
+        """first byte of the answer typed at a prompt (256 = end of input); None when no interaction is possible (-q)
+        or no prompt exists (-c, -t) or stdin is a source (the prompt is not asked: outside the model's grammar)"""
+        if self.quiet or self.out == "c" or self.mode == "T" or "-" in self.srcs:
+            return None
+        t = self.typed()
+        return t[0] if t else 256
+
     @property
     def confirm(self):
-        return (not self.quiet) and self.answer == "y" and self.out != "c" and self.mode != "T"
+        return self.answer_byte() in (ord("y"), ord("Y"))
 
     def argv(self):
         a = []
@@ -221,17 +235,16 @@ class Runner:
             os.symlink(os.path.relpath(os.path.join(w, t), os.path.dirname(p)), p)
         return base, w
 
-    def execute(self, case, k=0, action="none", wide=False):
+    def execute(self, case, k=0, action="none", wide=False, setup=None):
         """run the real binary under the supervisor; returns dict(base, w, log, status, stdout)"""
         base, w = self.fresh(case)
+        if setup is not None:
+            setup(w)
         log = os.path.join(base, "klog")
         so = os.path.join(base, "stdout")
         si = os.path.join(base, "stdin")
         with open(si, "wb") as f:
-            if case.stdin is not None:
-                f.write(case.stdin)
-            else:
-                f.write(((case.answer or "n") + "\n").encode() * 16 if not case.quiet else b"")
+            f.write(case.typed())
         env = dict(self.env)
         if wide:
             env["C19_WIDE"] = "1"
@@ -434,8 +447,9 @@ def model_line(case, fsl, ls, verd, faults):
     for n, f in faults.items():
         if n not in verd:
             vl.append("%s=%s:0::" % (n, fault_str(f)))
-    return "FIO;%s;%s;%s;%d%d%d%d;%s;%s;%s;%s;%s;%s;" % (
-        case.mode, ",".join(case.srcs), case.out, case.force, case.confirm, case.rec, case.excl, "".join(case.rmk),
+    ab = case.answer_byte()
+    return "FIO;%s;%s;%s;%d%d%d:%s;%s;%s;%s;%s;%s;%s;" % (
+        case.mode, ",".join(case.srcs), case.out, case.force, case.rec, case.excl, "-" if ab is None else str(ab), "".join(case.rmk),
         case.dict or "", case.patch or "", ",".join(fsl),
         ",".join("%s>%s" % (d, "|".join(c)) for d, c in ls.items()), ",".join(vl))
 
@@ -694,6 +708,39 @@ def oracle_safe(rn, pr, real, zcache):
     return bad
 
 
+COLLISION = " (two sources of this run share the destination name: the second output replaced the first one after the first source had been removed)"
+
+
+def oracle_collision(rn, pr, real, zcache):
+    """final state only, outside wf: two sources of ONE run map to the same destination name.  A source that is gone must
+    still be represented by the destination (finding C19-destination-collision-rm-loses-source: with -f --rm the first
+    source is removed and its output is then overwritten by the second source's output)."""
+    case = pr.case
+    bad = []
+    names = pr.names
+    alld = [pr.dst.get(x) for x in names if pr.dst.get(x)]
+    for s in dict.fromkeys(names):
+        orig = case.files.get(s)
+        d = pr.dst.get(s)
+        if not isinstance(orig, bytes) or d is None or alld.count(d) < 2 or names.count(s) > 1 or d in names:
+            continue
+        if real.get(s) == orig:
+            continue
+        got = deref(real, d)
+        ok = False
+        if isinstance(got, bytes):
+            if case.mode == "C":
+                key = hashlib.sha1(got).hexdigest()
+                if key not in zcache:
+                    zcache[key] = rn.lib_decode(got)
+                ok = zcache[key] == orig
+            elif case.mode == "D":
+                ok = bool(pr.accept.get(s)) and got == pr.decoded.get(s)
+        if not ok:
+            bad.append("source %s is gone and the destination %s does not hold its data%s" % (s, d, COLLISION))
+    return bad
+
+
 def oracle_noclobber(pr, real, final=False):
     """pre-existing files, directories and links: untouched unless (-f / confirmed and it is a destination) or
     (a source removed by --rm)"""
@@ -805,6 +852,8 @@ def check_case(rn, case, nkill, nint, rng, replay_only=None, nfault=0):
     concrete = []
     concrete += oracle_safe(rn, pr, real, zcache)
     concrete += oracle_noclobber(pr, real, final=True)
+    if not pr.wf:
+        concrete += oracle_collision(rn, pr, real, zcache)
     srcs_ok = [s for s in names if s in pr.content]
     skipped = [s for s in names if case.mode == "C" and case.excl and s != "-" and
                os.path.splitext(s)[1] in (".zst", ".tzst", ".gz", ".tgz", ".lzma", ".xz", ".txz", ".lz4", ".tlz4") and os.path.basename(s) != os.path.splitext(s)[1]]
@@ -848,8 +897,8 @@ def check_case(rn, case, nkill, nint, rng, replay_only=None, nfault=0):
         if case.mode == "D":
             for s in srcs_ok:
                 d = pr.dst.get(s)
-                if not d or d in names:
-                    continue
+                if not d or d in names or [pr.dst.get(x) for x in names].count(d) > 1:
+                    continue            # (two sources into one name: the last one wins; judged by oracle_collision)
                 got = real.get(d)
                 pre = case.files.get(d)
                 if pr.accept.get(s) and code == 0 and got != pr.decoded[s]:
@@ -886,7 +935,11 @@ def check_case(rn, case, nkill, nint, rng, replay_only=None, nfault=0):
                 concrete.append("exit status 0 although the input %s is missing or not a regular file" % s)
     for w_ in concrete:
         report("oracle-final", w_, dict(real_events=real_ev, status=status),
-               key="C19-dangling-destination-link-artefact" if (DANGLING in w_ and code not in (0, None)) else None)
+               key=("C19-dangling-destination-link-artefact" if (DANGLING in w_ and code not in (0, None)) else
+                    ("C19-destination-collision-rm-loses-source"
+                     if case.out.startswith("O:") and len(set(os.path.basename(x) for x in names)) < len(names) else
+                     "C19-destination-collision-default-names") if COLLISION in w_ else
+                    "C19-prompt-nul-byte-accepted-as-yes" if (NULANSWER(case) and "no -f was given" in w_) else None))
     rn.cleanup(r)
     if concrete:
         return nviol
@@ -988,6 +1041,11 @@ def check_case(rn, case, nkill, nint, rng, replay_only=None, nfault=0):
 
 
 # ----------------------------------------------------------------------------- injected I/O faults
+
+def NULANSWER(case):
+    """the answer typed at the prompt starts with a NUL byte (stdin is not a source)"""
+    return case.stdin is not None and case.stdin[:1] == b"\0" and "-" not in case.srcs and not case.quiet
+
 
 DANGLING = " (dangling destination link: the failed run removed the link and left the partial output under the link's target name)"
 WRITE_CODES = (70, 91, 92, 93, 95, 69)      # EXM_THROW codes of the write pool (plain write, 1 GB skip, sparse skip / write, last zero)
@@ -1366,6 +1424,22 @@ def corpus2(g, quick):
     add(C("od-c-missing-dir", "C", ["a"], out="O:nodir", rm=True, files={"a": A}))
     add(C("od-c-collision", "C", ["d1/a", "d2/a"], out="O:out", rm=True, files={"d1": DIR, "d2": DIR, "d1/a": A, "d2/a": B, "out": DIR}))
     add(C("od-c-collision-force", "C", ["d1/a", "d2/a"], out="O:out", force=True, files={"d1": DIR, "d2": DIR, "d1/a": A, "d2/a": B, "out": DIR}))
+    # two sources of one run into one destination name, -f --rm (finding C19-destination-collision-rm-loses-source)
+    add(C("col-c-flat-force-rm", "C", ["d1/a", "d2/a"], out="O:out", force=True, rm=True,
+          files={"d1": DIR, "d2": DIR, "d1/a": A, "d2/a": B, "out": DIR}))
+    add(C("col-d-flat-force-rm", "D", ["d1/a.zst", "d2/a.zst"], out="O:out", force=True, rm=True,
+          files={"d1": DIR, "d2": DIR, "d1/a.zst": ZA, "d2/a.zst": ZB, "out": DIR}), nk=2, ni=0)
+    add(C("col-d-zst-zstd-force-rm", "D", ["a.zst", "a.zstd"], force=True, rm=True, files={"a.zst": ZA, "a.zstd": ZB}), nk=2, ni=0)
+    add(C("col-d-tzst-tarzst-force-rm", "D", ["a.tzst", "a.tar.zst"], force=True, rm=True, files={"a.tzst": ZA, "a.tar.zst": ZB}), nk=2, ni=0)
+    add(C("col-d-zst-zstd-rm", "D", ["a.zst", "a.zstd"], rm=True, files={"a.zst": ZA, "a.zstd": ZB}), nk=2, ni=0)
+    add(C("col-d-flat-zst-zstd-force-rm", "D", ["d1/a.zst", "d2/a.zstd"], out="O:out", force=True, rm=True,
+          files={"d1": DIR, "d2": DIR, "d1/a.zst": ZA, "d2/a.zstd": ZB, "out": DIR}), nk=2, ni=0)
+    add(C("col-c-flat-three-force-rm", "C", ["d1/a", "b", "d2/a"], out="O:out/", force=True, rm=True,
+          files={"d1": DIR, "d2": DIR, "d1/a": A, "d2/a": B, "b": Cc, "out": DIR}), nk=2, ni=0)
+    add(C("col-c-flat-nocollision-rm", "C", ["d1/a", "d2/ab"], out="O:out", force=True, rm=True,
+          files={"d1": DIR, "d2": DIR, "d1/a": A, "d2/ab": B, "out": DIR}), nk=2, ni=0)
+    add(C("col-c-r-flat-force-rm", "C", ["t"], rec=True, out="O:out", force=True, rm=True,
+          files={"t": DIR, "t/x": DIR, "t/y": DIR, "t/x/f": A, "t/y/f": B, "out": DIR}), nk=2, ni=0)
     add(C("od-d-rm", "D", ["d/a.zst", "b.tzst"], out="O:out/", rm=True, files={"d": DIR, "d/a.zst": ZA, "b.tzst": ZB, "out": DIR}))
     add(C("od-d-exists", "D", ["a.zst"], out="O:out", rm=True, files={"a.zst": ZA, "out": DIR, "out/a": OLD}))
     add(C("od-is-file", "C", ["a"], out="O:out", rm=True, files={"a": A, "out": OLD}))
@@ -1433,6 +1507,14 @@ def corpus2(g, quick):
     add(C("l-dst-is-src-via-link", "C", ["a"], out="o:lnk", force=True, rm=True, files={"a": A}, links={"lnk": "a"}))
     add(C("l-src-is-dst-via-link", "D", ["l.zst"], out="o:a.zst", force=True, rm=True, files={"a.zst": ZA}, links={"l.zst": "a.zst"}))
     add(C("l-prompt-yes", "C", ["a"], quiet=False, answer="y", files={"a": A, "precious": OLD}, links={"a.zst": "precious"}))
+    # ---- the prompts answered with a NUL byte / EOF / garbage (finding C19-prompt-nul-byte-accepted-as-yes)
+    add(C("p-nul-overwrite", "C", ["a"], quiet=False, stdin=b"\0\n", rm=True, files={"a": A, "a.zst": OLD}))
+    add(C("p-nul-overwrite-d", "D", ["a.zst"], quiet=False, stdin=b"\0", files={"a.zst": ZA, "a": OLD}), nk=2, ni=0)
+    add(C("p-nul-concat", "C", ["a", "b"], out="o:out", quiet=False, stdin=b"\0\n", rm=True, files={"a": A, "b": B}), nk=2, ni=0)
+    add(C("p-eof-overwrite", "C", ["a"], quiet=False, stdin=b"", rm=True, files={"a": A, "a.zst": OLD}), nk=2, ni=0)
+    add(C("p-other-overwrite", "C", ["a"], quiet=False, stdin=b"\xff\n", files={"a": A, "a.zst": OLD}), nk=2, ni=0)
+    add(C("p-newline-overwrite", "C", ["a"], quiet=False, stdin=b"\n", rm=True, files={"a": A, "a.zst": OLD}), nk=2, ni=0)
+    add(C("p-Y-overwrite", "C", ["a"], quiet=False, answer="y", stdin=b"Yes\n", files={"a": A, "a.zst": OLD}), nk=2, ni=0)
     # ---- decompression of several frames / skippable frames / trailing garbage under every flag set
     kinds = ["multi", "skip-only", "skip-first", "junk-short", "junk-long", "good-then-corrupt", "empty", "notzstd", "good-then-trunc"]
     flagsets = [dict(), dict(force=True), dict(out="c"), dict(out="c", force=True), dict(rm=True), dict(force=True, rm=True),
@@ -1713,6 +1795,58 @@ def check_sparse_setting(rn, g):
     return nviol
 
 
+def check_nonregular_dst(rn, g):
+    """--rm and a destination that is not a regular file (a device, a FIFO): the output cannot stand for the source, so the
+    source must stay (3e50c92: the --rm conditions of FIO_compressFilename_srcFile / FIO_decompressSrcFile require
+    UTIL_isRegularFile(dstFileName)).  Devices and FIFOs are outside the model's file system: direct oracle only."""
+    ctx = rn.ctx
+    A = text(g.rng, 3000)
+    ZA = g.z(A)
+    readers = []
+
+    def fifo(name):
+        def setup(w):
+            os.mkfifo(os.path.join(w, name))
+            readers.append(subprocess.Popen(["cat", os.path.join(w, name)], stdout=subprocess.DEVNULL, stderr=subprocess.DEVNULL))
+        return setup
+
+    scen = [
+        (Case("nr-c-devnull-rm", "C", ["a"], out="o:/dev/null", rm=True, files={"a": A}), None, "a"),
+        (Case("nr-d-devnull-rm", "D", ["a.zst"], out="o:/dev/null", rm=True, files={"a.zst": ZA}), None, "a.zst"),
+        (Case("nr-c-devnull-force-rm", "C", ["a"], out="o:/dev/null", force=True, rm=True, files={"a": A}), None, "a"),
+        (Case("nr-c-fifo-rm", "C", ["a"], rm=True, files={"a": A}), fifo("a.zst"), "a"),
+        (Case("nr-d-fifo-rm", "D", ["a.zst"], rm=True, files={"a.zst": ZA}), fifo("a"), "a.zst"),
+        (Case("nr-c-fifo-o-rm", "C", ["a"], out="o:pipe", rm=True, files={"a": A}), fifo("pipe"), "a"),
+    ]
+    nviol = 0
+    for case, setup, src in scen:
+        try:
+            r = rn.execute(case, setup=setup)
+        finally:
+            for p in readers:
+                try:
+                    p.wait(timeout=5)
+                except subprocess.TimeoutExpired:
+                    p.kill()
+            del readers[:]
+        real = read_dir(r["w"]) if setup is None else {n: (open(os.path.join(r["w"], n), "rb").read() if os.path.isfile(os.path.join(r["w"], n)) else None)
+                                                        for n in os.listdir(r["w"])}
+        st = r["status"]
+        ctx.count(("nonregular-dst", case.name, st), nontrivial=True)
+        bad = None
+        if real.get(src) != case.files[src]:
+            bad = "the source %s was removed although the destination is not a regular file (exit status %s): its data exists nowhere" % (src, st)
+        elif st != ("EXIT", 0):
+            bad = "status %s" % (st,)
+        rn.cleanup(r)
+        if bad:
+            if ctx.violation(dict(kind="nonregular-dst", case=case.to_json(), argv=case.argv(), status=st),
+                             what="%s [%s: zstd %s]" % (bad, case.name, " ".join(case.argv())),
+                             key="C19-rm-with-non-regular-destination" if "was removed" in bad else None):
+                nviol += 1
+    return nviol
+
+
 def check_read_errors(rn, g, rng):
     """read(2) errors on a source large enough for the asynchronous reader (>= 3 x 128 KiB): the fatal error is raised on
     the reader thread.  Direct oracles only (thread timing: the call indices differ from run to run)."""
@@ -1852,7 +1986,10 @@ def run(ctx):
             nviol += check_sparse_big(ctx, tools, not quick)
             nviol += check_cli_sparse(rn, g, not quick)
             nviol += check_sparse_setting(rn, g)
-            core.log("C19 CLI sparse/no-sparse done %.1fs" % (time.time() - t0))
+            nviol += check_nonregular_dst(rn, g)
+            core.log("C19 CLI sparse/no-sparse, non-regular destinations done %.1fs" % (time.time() - t0))
+        elif "nr-" in only:
+            nviol += check_nonregular_dst(rn, g)
         cases = corpus(g) + corpus2(g, quick)
         nrand = 24 if quick else 400
         for i in range(nrand):
@@ -1908,6 +2045,8 @@ def replay(ctx, tools):
         elif kind in ("sparse-setting", "cli-sparse"):
             check_sparse_setting(rn, g)
             check_cli_sparse(rn, g, False)
+        elif kind == "nonregular-dst":
+            check_nonregular_dst(rn, g)
         elif kind == "read-error":
             check_read_errors(rn, g, rng)
         elif kind.startswith("sparse"):
